@@ -162,14 +162,17 @@ def _operand(draw, shape, force_tensor=False, allow_scalar=True):
     layout = draw(st.sampled_from([None, None, None, "F", "neg", "sliced", "bcast", "relaxed", "offset"])) if shape else None
     if layout == "relaxed" and 1 not in shape:
         layout = None
-    return {"kind": kind, "dtype": dtype, "shape": list(shape), "vals": vals, "layout": layout, "half": draw(st.booleans())}
+    out = {"kind": kind, "dtype": dtype, "shape": list(shape), "vals": vals, "layout": layout, "half": draw(st.booleans())}
+    if draw(st.integers(0, 5)) == 0:
+        out["scale"] = draw(st.sampled_from([100, 1000, 6000]))  # large magnitudes (float16 accumulators, overflow)
+    return out
 
 
 def _array(o):
     dt = np.dtype(o["dtype"])
     v = np.array(o["vals"], dtype=np.float64)
     if dt.kind == "f":
-        a = (v / 2.0 if o.get("half") else v).astype(dt)
+        a = ((v / 2.0 if o.get("half") else v) * o.get("scale", 1)).astype(dt)
     elif dt.kind == "b":
         a = (v.astype(np.int64) % 2).astype(bool)
     elif dt.kind == "u":
